@@ -1,4 +1,5 @@
 import BSModel.Proofs.EncodingOut
+import BSModel.Proofs.EncodingOutUtf
 /-! # C08 — output in any target encoding is valid, lossless and self-describing
 
 Property theorems only. `pyEncode`/`encodeWith` is `str.encode(codec, errors)`, `encodeImpl`/`prettifyImpl`/`encodeContentsImpl`
@@ -109,6 +110,109 @@ example : xmlcharrefreplace latin1Codec [0x2603, 0xE9, 0x1F600, 0xD800] = ofS "&
 /-- encodable text is not touched at all -/
 theorem encodable_untouched (C : Codec) (s : PStr) (h : C.Encodable s) : xmlcharrefreplace C s = s :=
   xcr_encodable_id C s h
+
+/-! ## 2b. the `errors=` argument, and the fallback for every code point and every class of codec -/
+
+/-- `Tag.encode(encoding, errors=h)` hands `h` to `str.encode`. Every handler but `strict` always returns bytes: the strict
+    encoding of the rendering in which each unencodable code point is replaced by what the handler dictates (nothing,
+    `?`, `&#N;`, `\xhh`/`\uhhhh`/`\Uhhhhhhhh`). -/
+theorem encode_errors_total (C : Codec) (hA : C.AsciiOK) (h : Handler) (hs : h ≠ .strict) (name : PStr) (indent : Option Nat)
+    (t : Node) :
+    encodeImpl name C indent t h = .bytes (C.enc (handled C h (decodeImpl indent (some name) t))) :=
+  pyEncode_nonstrict C hA h hs _
+
+/-- … and the bytes decode to that handled string -/
+theorem bytes_decode_errors (C : Codec) (hA : C.AsciiOK) (hr : C.RoundTrip) (h : Handler) (hs : h ≠ .strict) (s : PStr) (b : Bytes)
+    (hb : pyEncode C h s = .bytes b) : C.dec b = some (handled C h s) := by
+  rw [pyEncode_nonstrict C hA h hs s] at hb
+  cases hb
+  exact hr _ (handled_encodable C hA h s)
+
+/-- when every character is encodable the handler is never consulted: all five give the strict encoding -/
+theorem handlers_agree_on_encodable (C : Codec) (s : PStr) (hs : C.Encodable s) (h : Handler) :
+    pyEncode C h s = .bytes (C.enc s) := by
+  cases h <;> simp only [pyEncode, firstBad_none C _ 0 hs, handled_encodable_id C _ s hs]
+
+/-- only `xmlcharrefreplace` — bs4's default — writes something a reader turns back into the character: the other
+    handlers lose it (`ignore`), flatten it (`replace`) or leave an escape no HTML reader undoes (`backslashreplace`) -/
+theorem other_handlers_lose :
+    readText (fun _ => none) (handled asciiCodec .xmlcharrefreplace (substituteXml [97, 0x2603])) = [97, 0x2603]
+    ∧ readText (fun _ => none) (handled asciiCodec .ignore (substituteXml [97, 0x2603])) = [97]
+    ∧ readText (fun _ => none) (handled asciiCodec .replace (substituteXml [97, 0x2603])) = [97, 63]
+    ∧ readText (fun _ => none) (handled asciiCodec .backslashreplace (substituteXml [97, 0x2603, 0xE9, 0x1F600]))
+        = ofS "a\\u2603\\xe9\\U0001f600" := by decide
+
+example : encodeImpl (ofS "ascii") asciiCodec none demo .replace = .bytes (ofS "<p title=\"??\">a&amp;?<br/></p>") := by decide +kernel
+example : encodeImpl (ofS "ascii") asciiCodec none demo .strict = .unicodeEncodeError 10 0x2603 := by decide +kernel
+
+/-- **The fallback, for every code point and every codec.** What stands for `c` in the output is `c` itself when the codec
+    can encode it, and otherwise `&#` + the decimal digits of `c` + `;` — pure ASCII, at most ten characters for a code
+    point of the Unicode range, and the digits read back as `c`. -/
+theorem fallback_every_code_point (C : Codec) (c : Nat) :
+    (C.canEnc c = true → xcrChar C c = [c])
+    ∧ (C.canEnc c = false → xcrChar C c = [38, 35] ++ toDec c ++ [59] ∧ (∀ d ∈ xcrChar C c, d < 128)
+        ∧ ofDec (toDec c) = c ∧ (∀ d ∈ toDec c, isDigit d = true) ∧ toDec c ≠ []
+        ∧ (c < 0x110000 → (xcrChar C c).length ≤ 10)) := by
+  refine ⟨fun h => by simp [xcrChar, h], fun h => ?_⟩
+  have e : xcrChar C c = [38, 35] ++ toDec c ++ [59] := by simp [xcrChar, h, charref]
+  refine ⟨e, ?_, ofDec_toDec c, toDec_digits c, toDec_ne_nil c, ?_⟩
+  · intro d hd; rw [e] at hd; exact charref_lt128 c d (by simpa [charref] using hd)
+  · intro hc
+    have := toDec_length_le c hc
+    rw [e]; simp; omega
+
+/-- class 1, single-byte charsets (any decode table): a code point is written as a reference exactly when it is not in the
+    table; class 2, the UTFs: exactly the lone surrogates are (they are not characters; everything else passes). -/
+theorem fallback_by_codec_class (tbl : List Nat) (c : Nat) :
+    ((tableCodec tbl).canEnc c = true ↔ (c < 0x110000 ∧ c ∈ tbl))
+    ∧ (utf8Codec.canEnc c = true ↔ (c < 0x110000 ∧ ¬ (0xD800 ≤ c ∧ c ≤ 0xDFFF)))
+    ∧ utf8Codec.canEnc = utf16Codec.canEnc ∧ utf8Codec.canEnc = utf32Codec.canEnc
+    ∧ utf8Codec.canEnc = utf16leCodec.canEnc ∧ utf8Codec.canEnc = utf16beCodec.canEnc
+    ∧ utf8Codec.canEnc = utf32leCodec.canEnc ∧ utf8Codec.canEnc = utf32beCodec.canEnc := by
+  refine ⟨?_, ?_, rfl, rfl, rfl, rfl, rfl, rfl⟩
+  · simp only [tableCodec, undef, Bool.and_eq_true, List.contains_iff_mem]
+    constructor
+    · intro h; exact ⟨of_decide_eq_true h.1, h.2⟩
+    · intro h; exact ⟨decide_eq_true h.1, h.2⟩
+  · simp [utf8Codec, isScalar, isSurr]; omega
+
+/-- a document of characters (no lone surrogate) goes to any UTF without a single reference -/
+theorem utf_needs_no_references (s : PStr) (h : ∀ c ∈ s, isScalar c = true) :
+    xmlcharrefreplace utf8Codec s = s ∧ xmlcharrefreplace utf16Codec s = s ∧ xmlcharrefreplace utf32Codec s = s :=
+  ⟨xcr_encodable_id _ s h, xcr_encodable_id _ s h, xcr_encodable_id _ s h⟩
+
+example : xmlcharrefreplace utf8Codec [97, 0xD800, 0x1F600] = ofS "a&#55296;" ++ [0x1F600] := by decide
+example : utf8Codec.enc [0x24, 0xE9, 0x20AC, 0x1F600] = [0x24, 0xC3, 0xA9, 0xE2, 0x82, 0xAC, 0xF0, 0x9F, 0x98, 0x80] := by decide
+example : utf16Codec.enc [0x41, 0x1F600] = [0xFF, 0xFE, 0x41, 0, 0x3D, 0xD8, 0x00, 0xDE] := by decide
+
+/-- The codec laws the theorems assume are satisfied by real codecs: all seven UTFs (CPython's byte layouts, compared byte
+    for byte by the harness) obey the round-trip law and can write ASCII; UTF-8 is ASCII-compatible. -/
+theorem utf_codecs_lawful :
+    utf8Codec.RoundTrip ∧ utf16Codec.RoundTrip ∧ utf16leCodec.RoundTrip ∧ utf16beCodec.RoundTrip
+    ∧ utf32Codec.RoundTrip ∧ utf32leCodec.RoundTrip ∧ utf32beCodec.RoundTrip
+    ∧ utf8Codec.AsciiOK ∧ utf16Codec.AsciiOK ∧ utf32Codec.AsciiOK ∧ utf8Codec.AsciiCompat :=
+  ⟨utf8_roundTrip, utf16_roundTrip, utf16le_roundTrip, utf16be_roundTrip, utf32_roundTrip, utf32le_roundTrip, utf32be_roundTrip,
+   utf8_asciiOK, fun c hc => utf_asciiOK c hc, fun c hc => utf_asciiOK c hc, utf8_asciiCompat⟩
+
+/-- … and by every generated single-byte table (the whole `sbCodecs` table, not a sample): each can write ASCII — cp500
+    (EBCDIC) included — and each except cp500 writes ASCII as itself, hence is ASCII-compatible. -/
+theorem sb_tables_ascii :
+    sbCodecs.all (fun p => tableAsciiOK p.2) = true
+    ∧ sbCodecs.all (fun p => tableAsciiAt p.2 || p.1 == ofS "cp500") = true
+    ∧ tableAsciiAt sb_cp500 = false := by
+  refine ⟨?_, ?_, ?_⟩ <;> decide +kernel
+
+theorem sb_table_codec_laws (nm : PStr) (tbl : List Nat) (h : (nm, tbl) ∈ sbCodecs) :
+    (tableCodec tbl).RoundTrip ∧ (tableCodec tbl).AsciiOK ∧ (nm ≠ ofS "cp500" → (tableCodec tbl).AsciiCompat) := by
+  refine ⟨tableCodec_roundTrip tbl, tableCodec_asciiOK tbl ?_, fun hn => tableCodec_asciiCompat tbl ?_⟩
+  · exact List.all_eq_true.mp sb_tables_ascii.1 (nm, tbl) h
+  · have := List.all_eq_true.mp sb_tables_ascii.2.1 (nm, tbl) h
+    simp only [Bool.or_eq_true, beq_iff_eq] at this
+    rcases this with h1 | h1
+    · exact h1
+    · exact absurd h1 hn
+
+example : (ofS "koi8-r", sb_koi8_r) ∈ sbCodecs := by simp [sbCodecs, ofS]
 
 /-! ## 3. losslessness: re-reading the decoded bytes recovers text and attribute values -/
 
